@@ -38,9 +38,34 @@ Qed.
 Lemma v_bool_simple h v : simple v -> v_bool h v = v_bool [] v.
 Proof. destruct v; intros []; reflexivity. Qed.
 
+Definition seq_res2 (r : res) (s : state) (cards : list card) : Prop :=
+  r = RFuel \/
+  (exists s', r = ok [] env0 s' /\ run_cards2 (st_globals s) cards = (true, st_globals s') /\ gs s') \/
+  (exists s', r = err EVarNotFound env0 s' /\ run_cards2 (st_globals s) cards = (false, st_globals s') /\ gs s').
+
+Lemma eval_seq_good cards : Forall stmt_good cards -> forall fuel s, gs s ->
+  seq_res2 (evalf fuel (TkSeq fi env0 cards) s) s cards.
+Proof.
+  induction 1 as [|c r Hgood _ IH]; intros fuel s Hs;
+    (destruct fuel as [|f]; [left; reflexivity|]); cbn [eval]; unfold F;
+    (destruct (limit <? st_steps s)%N; [left; reflexivity|]);
+    pose proof (gs_bump _ Hs) as Hb; cbn [F].
+  - right; left. exists (bump s). cbn. auto.
+  - unfold seq_res2. cbn [run_cards2].
+    pose proof (Hgood f (bump s) Hb) as [E|[(s1 & E & Hrun & Hs1)|(s1 & E & Hrun & Hs1)]];
+      rewrite E; cbn [bnd ok err bump st_globals] in *; try rewrite Hrun.
+    + left; reflexivity.
+    + pose proof (IH f s1 Hs1) as [E2|[(s2 & E2 & Hrun2 & Hs2)|(s2 & E2 & Hrun2 & Hs2)]];
+        rewrite E2; cbn [bnd ok err app].
+      * left; reflexivity.
+      * right; left. exists s2. auto.
+      * right; right. exists s2. auto.
+    + right; right. exists s1. auto.
+Qed.
+
 Lemma stmt_f2_good c : stmt_f2 c = true -> stmt_good c.
 Proof.
-  induction c; intros Hc; cbn [stmt_f2] in Hc; try discriminate Hc; intros fuel st Hs; unfold stmt_res.
+  induction c using CompilerWf.card_ind'; intros Hc; cbn [stmt_f2] in Hc; try discriminate Hc; intros fuel st Hs; unfold stmt_res.
   - (* CBin: IfTrue / IfFalse *)
     destruct op; try discriminate Hc; apply andb_true_iff in Hc; destruct Hc as [He Hb];
       (destruct fuel as [|f]; [left; reflexivity|]); cbn [eval]; unfold F;
@@ -72,38 +97,30 @@ Proof.
       * apply (IHc3 Hb f s1 Hs1).
     + right; right. exists s1. rewrite Hg1. auto.
   - (* Comment *)
-    pose proof (eval_stmt P host limit fi (CComment s) eq_refl fuel st Hs) as H.
+    match goal with |- context [TkCard fi env0 (CComment ?x)] =>
+      pose proof (eval_stmt P host limit fi (CComment x) eq_refl fuel st Hs) as H end.
     unfold seq_res in H. cbn [run_cards] in H. exact H.
   - (* SetGlobalVar *)
-    pose proof (eval_stmt P host limit fi (CSetGlobalVar name c) Hc fuel st Hs) as H.
-    unfold seq_res in H. cbn [run_cards] in H. unfold stmt_res. cbn [run_stmt2].
-    destruct (ev (st_globals st) c); exact H.
+    match goal with |- context [TkCard fi env0 (CSetGlobalVar ?x ?y)] =>
+      pose proof (eval_stmt P host limit fi (CSetGlobalVar x y) Hc fuel st Hs) as H;
+      unfold seq_res in H; cbn [run_cards] in H; cbn [run_stmt2];
+      destruct (ev (st_globals st) y); exact H end.
+  - (* Composite *)
+    assert (Hall : Forall stmt_good cards).
+    { match goal with HF : Forall _ cards |- _ => revert Hc; induction HF as [|x r Hx _ IHr]; intros Hc end;
+        [constructor|]. cbn [forallb] in Hc. apply andb_true_iff in Hc. destruct Hc as [H1 H2]. constructor; auto. }
+    (destruct fuel as [|f]; [left; reflexivity|]); cbn [eval]; unfold F.
+    (destruct (limit <? st_steps st)%N; [left; reflexivity|]). cbn [eval_card].
+    pose proof (eval_seq_good _ Hall f (bump st) (gs_bump _ Hs)) as H2. unfold seq_res2 in H2.
+    rewrite run_stmt2_composite. cbn [bump st_globals] in H2. exact H2.
 Qed.
-
-Definition seq_res2 (r : res) (s : state) (cards : list card) : Prop :=
-  r = RFuel \/
-  (exists s', r = ok [] env0 s' /\ run_cards2 (st_globals s) cards = (true, st_globals s') /\ gs s') \/
-  (exists s', r = err EVarNotFound env0 s' /\ run_cards2 (st_globals s) cards = (false, st_globals s') /\ gs s').
 
 Lemma eval_seq2 cards : forallb stmt_f2 cards = true -> forall fuel s, gs s ->
   seq_res2 (evalf fuel (TkSeq fi env0 cards) s) s cards.
 Proof.
-  induction cards as [|c r IH]; intros Hc fuel s Hs;
-    (destruct fuel as [|f]; [left; reflexivity|]); cbn [eval]; unfold F;
-    (destruct (limit <? st_steps s)%N; [left; reflexivity|]);
-    pose proof (gs_bump _ Hs) as Hb; cbn [F].
-  - right; left. exists (bump s). cbn. auto.
-  - cbn [forallb] in Hc. apply andb_true_iff in Hc. destruct Hc as [Hc Hr].
-    unfold seq_res2. cbn [run_cards2].
-    pose proof (stmt_f2_good c Hc f (bump s) Hb) as [E|[(s1 & E & Hrun & Hs1)|(s1 & E & Hrun & Hs1)]];
-      rewrite E; cbn [bnd ok err bump st_globals] in *; try rewrite Hrun.
-    + left; reflexivity.
-    + pose proof (IH Hr f s1 Hs1) as [E2|[(s2 & E2 & Hrun2 & Hs2)|(s2 & E2 & Hrun2 & Hs2)]];
-        rewrite E2; cbn [bnd ok err app].
-      * left; reflexivity.
-      * right; left. exists s2. auto.
-      * right; right. exists s2. auto.
-    + right; right. exists s1. auto.
+  intros Hc. apply eval_seq_good. induction cards as [|c r IH]; [constructor|].
+  cbn [forallb] in Hc. apply andb_true_iff in Hc. destruct Hc as [H1 H2].
+  constructor; [apply stmt_f2_good, H1 | apply IH, H2].
 Qed.
 End Eval.
 
